@@ -83,9 +83,11 @@ ODD_STRINGS = ["cost in $$", "$$", "${Name} and $Name", "first\n   \nlast", "  t
 
 def _gen_user_program(rng):
     cmds = []
-    for i in range(rng.randint(1, 5)):
+    n_cmds = rng.randint(1, 5)
+    top_down = rng.random() < 0.5      # files written top-down name results that are defined further down
+    for i in range(n_cmds):
         args = []
-        prev = [c["result"] for c in cmds]
+        prev = [c["result"] for c in cmds] if not top_down else ["U%d" % j for j in range(n_cmds) if j != i]
         for k in rng.sample(["V", "OutFileName", "NewFieldName", "A", "InFieldNames", "Anything", "Metadata"], rng.randint(0, 4)):
             if k == "Metadata":
                 v = syntax.gen_tuple(rng)      # key / value entries keep the kind of value that was written (numbers stay numbers)
@@ -103,6 +105,9 @@ def _gen_user_program(rng):
                 v = {"t": "list", "items": [{"t": "ustr", "v": rng.choice(prev), "cls": "word"} for _ in range(rng.randint(0, 3))] if prev else [], "trail": False}
             else:
                 v = {"t": "list", "items": [syntax.gen_qstr(rng) if rng.random() < 0.6 else syntax.gen_int(rng) for _ in range(rng.randint(0, 3))], "trail": False}
+                if top_down and rng.random() < 0.4:
+                    # a text that happens to be the name of a later result
+                    v["items"].append({"t": "qstr", "v": "U%d" % rng.randrange(n_cmds), "q": '"'})
             args.append({"name": k, "value": v})
         cmds.append({"result": "U%d" % i, "command": rng.choice(USER_NAMES), "args": args, "trail": False})
     return {"commands": cmds}
